@@ -95,3 +95,29 @@ theorem natBEw_widen (k w n : Nat) (h : n < 256 ^ w) :
     simp only [natBEw, ih (n / 256) hdiv, List.append_assoc]
 
 end Axelar
+
+namespace Axelar
+
+theorem u32be_length (n : Nat) : (u32be n).length = 4 := by simp [u32be]
+
+theorem u32be_inj (a b : Nat) (ha : a < 2 ^ 32) (hb : b < 2 ^ 32) (h : u32be a = u32be b) : a = b := by
+  have h1 := beNat_natBEw 4 a
+  have h2 := beNat_natBEw 4 b
+  unfold u32be at h
+  rw [h] at h1
+  rw [h1] at h2
+  have e : (256 : Nat) ^ 4 = 2 ^ 32 := by decide
+  rw [e] at h2
+  rw [Nat.mod_eq_of_lt ha, Nat.mod_eq_of_lt hb] at h2
+  exact h2
+
+/-- the length-prefixed encoding is uniquely decodable in front of any continuation -/
+theorem nestBuf_append_inj (a b r r' : Bytes) (ha : a.length < 2 ^ 32) (hb : b.length < 2 ^ 32)
+    (h : nestBuf a ++ r = nestBuf b ++ r') : a = b ∧ r = r' := by
+  unfold nestBuf at h
+  simp only [List.append_assoc] at h
+  obtain ⟨h1, h2⟩ := List.append_inj h (by simp [u32be_length])
+  have hl := u32be_inj _ _ ha hb h1
+  exact List.append_inj h2 hl
+
+end Axelar
